@@ -932,6 +932,8 @@ bool run_one(const std::vector<std::uint8_t>& prefix, const std::vector<vsched::
   for (const auto& b : H.blocks)
     if (b.second.live) {
       H.violation("C10", "C10/not-returned", "memory still held after the index was destroyed");
+      // the same fact under C04's last clause: a node that the teardown unlinked was never freed
+      H.violation("C04", "C04/never-freed", "a tree block was never freed: it is still allocated after the drain and the destruction of the index");
       break;
     }
   return H.violations_total < 200;
